@@ -173,7 +173,8 @@ def check_structured(ctx, rng):
     sep = rng.choice(['-', '-', '#', '+', '/'])
     cat = rng.choice(['NP', 'S', 'VP', 'WHNP', 'ADVP', 'X', 'A1b', '*T*',
                       '*ICH*', 'EMPTY'])
-    gf = rng.choice(['--', 'SBJ', 'HD', 'OA', 'TPC', 'mo', 'SB', 'PRD'])
+    gf = rng.choice(['--', 'SBJ', 'HD', 'OA', 'TPC', 'mo', 'SB', 'PRD', 'A',
+                     'x'])
     gap = rng.choice(['', '', '1', '23', '01'])
     co = rng.choice(['', '', '2', '17', '01', '007', '0'])
     head = rng.choice(['', '', "'"])
